@@ -1,6 +1,7 @@
 """C18 oracle: Canonical flags and novel-model strands recomputed from the reference FASTA (pure function of the sequence)."""
 from . import tables as T
 from .gtf import load_reference
+from .. import workload
 
 FWD = {("GT", "AG"), ("GC", "AG"), ("AT", "AC")}
 REV = {("CT", "AC"), ("CT", "GC"), ("GT", "AT")}
@@ -47,6 +48,27 @@ def check(files, truth, run, rundir):
             if flag != want:
                 problems.append("%sread_assignments.tsv: read %s %s%s exons %s: Canonical=%s, reference sequence says %s" % (
                     pre, a.read_id, a.chr, a.strand, a.exons, flag, want))
+        # polyA / polyT evidence of the input reads (ground truth of the generator): read name -> '+' | '-' | None
+        tails = {}
+        spec = truth["spec"]
+        ep = spec.get("exp_polya")
+        trimmed = False
+        for e, ex_ in enumerate(truth["exps"]):
+            if (ex_["name"] == p or (p == "OUT" and len(truth["exps"]) == 1)) and ep and e < len(ep) and not ep[e]:
+                trimmed = True
+        for r in truth["reads"]:
+            rec = r["records"][0]
+            cig = rec["cigar"]
+            ev = None
+            if cig and cig[-1][0] == 4 and not rec["flag"] & 16:
+                ev = "+"
+            elif cig and cig[0][0] == 4 and rec["flag"] & 16:
+                ev = "-"
+            tails[workload.read_name(r, spec)] = ev
+        r2t = T.parse_r2t(files, pre + "transcript_model_reads.tsv") or []
+        support = {}
+        for rid, tid in r2t:
+            support.setdefault(tid, set()).add(rid)
         for fn in ("transcript_models.gtf", "extended_annotation.gtf"):
             b = files.get(pre + fn)
             if b is None:
@@ -69,6 +91,15 @@ def check(files, truth, run, rundir):
                     introns = [(ex[i][1] + 1, ex[i + 1][0] - 1) for i in range(len(ex) - 1)]
                     cf = sum(1 for i in introns if sites(seqs[r["chr"]], i) in FWD and sites(seqs[r["chr"]], i) not in REV)
                     cr = sum(1 for i in introns if sites(seqs[r["chr"]], i) in REV and sites(seqs[r["chr"]], i) not in FWD)
+                    if cf == cr and not trimmed and fn == "transcript_models.gtf":
+                        # splice sites uninformative: the strand must not contradict unanimous polyA/polyT evidence of the
+                        # reads the model is built from
+                        evs = set(tails.get(rid) for rid in support.get(tid, ())) - {None}
+                        if len(evs) == 1 and r["strand"] in "+-" and r["strand"] not in evs:
+                            problems.append("%s%s: novel transcript %s reported on strand %s; its splice sites are uninformative "
+                                            "and all %d supporting reads with a tail carry poly%s (strand %s)" % (
+                                                pre, fn, tid, r["strand"], len([1 for rid in support.get(tid, ()) if tails.get(rid)]),
+                                                "A" if "+" in evs else "T", sorted(evs)[0]))
                     if cf != cr:
                         imp = "+" if cf > cr else "-"
                         # introns shared with reference transcripts inherit the annotated strand: only judge models
